@@ -31,7 +31,8 @@ FUZZ = {'include': ['taurex.data.profiles.chemistry', 'taurex.util.util'], 'runs
 
 AMU = 1.66053906892e-27
 FILL = ['H2', 'He', 'N2', 'Ar', 'CO2']
-TRACE = ['H2O', 'C10H8', 'CH4', 'CO', 'NH3', 'C4H10', 'HCN', 'C2H2', 'SO2', 'TiO', 'VO', 'Na', 'K', 'O2', 'NO', 'H2S', 'C12H26']
+TRACE = ['H2O', 'C10H8', 'CH4', 'CO', 'NH3', 'C4H10', 'HCN', 'C2H2', 'SO2', 'TiO', 'VO', 'Na', 'K', 'O2', 'NO', 'H2S', 'C12H26',
+         'Ca(OH)2', 'Al2(SO4)3', '(CH3)2CO', 'Fe(CO)5', 'Ca(Al(OH)4)2', 'Mg[OH]2', 'C6H5(CH3)12', 'Na(OH)', 'H{CN}']
 TYPES = ['twolayer', 'constant', 'power', 'twopoint', 'array']
 
 
@@ -86,17 +87,37 @@ def strategy(tier):
 
 
 def formula_mass(mol, table):
-    """element counts by regex; e.g. C2H2 -> 2*C + 2*H"""
-    total = 0.0
-    pos = 0
-    for m in re.finditer(r'([A-Z][a-z]?)(\d*)', mol):
-        if m.start() != pos:
+    """mass of a formula by recursive descent: element [count] | (group) [count], any of () [] {} as brackets;
+    e.g. C2H2 -> 2*C + 2*H, Ca(OH)2 -> Ca + 2*(O + H)"""
+    close_of = {'(': ')', '[': ']', '{': '}'}
+
+    def count(i):
+        j = i
+        while j < len(mol) and mol[j].isdigit():
+            j += 1
+        return (int(mol[i:j]) if j > i else 1), j
+
+    def group(i, closer):
+        total = 0.0
+        while i < len(mol):
+            ch = mol[i]
+            if ch == closer:
+                return total, i + 1
+            if ch in close_of:
+                sub, i = group(i + 1, close_of[ch])
+                n, i = count(i)
+                total += sub * n
+                continue
+            m = re.match(r'[A-Z][a-z]?', mol[i:])
+            if not m:
+                raise ValueError(mol)
+            n, i2 = count(i + m.end())
+            total += table[m.group(0)] * n
+            i = i2
+        if closer is not None:
             raise ValueError(mol)
-        pos = m.end()
-        total += table[m.group(1)] * (int(m.group(2)) if m.group(2) else 1)
-    if pos != len(mol):
-        raise ValueError(mol)
-    return total
+        return total, i
+    return group(0, None)[0]
 
 
 def make_gas(g, f, P):
